@@ -12,7 +12,7 @@ def _group(pairs):
 
 
 def run(ctx, driver, cases, to_term, header, case_type, key_fn, describe, nontrivial, relation,
-        sanitize=False, tag="cases", shard=1200, check_obs=None, driver_args=()):
+        sanitize=False, tag="cases", shard=1200, check_obs=None, driver_args=(), max_reports=25):
     """cases: JSON-able dicts; the driver returns one observation per case.  Coq side: `corr_codes`,
     `law_codes : case -> list Z`.  check_obs(case, obs) -> None | str (harness sanity)."""
     rc, obs, err = ctx.run_driver(driver, cases, sanitize=sanitize, args=driver_args)
@@ -46,15 +46,23 @@ def run(ctx, driver, cases, to_term, header, case_type, key_fn, describe, nontri
     lawg, corrg = _group(law), _group(corr)
     reported = {}
     violating = set()
+    suppressed = 0
     for i in sorted(lawg):
         for code in sorted(lawg[i]):
             key = key_fn(cases[i], obs[i], code)
+            is_known = any(e.get("status") == "known" and e.get("key") == key for e in ctx.known)
+            if key not in reported and not is_known and len(ctx.violations) >= max_reports:
+                reported[key] = "suppressed"          # enough distinct failing inputs reported; counted below
+                suppressed += 1
             if key not in reported:
                 reported[key] = ctx.fail(key, describe(cases[i], obs[i], code),
                                          dict(kind="law-failure-on-implementation", clause=code, case=cases[i],
                                               impl_obs=obs[i]))
             if reported[key] != "known":
                 violating.add(i)
+    if suppressed:
+        ctx.notes.append("%d further distinct law failures not reported individually" % suppressed)
+        print("(%d further distinct law failures on other inputs not listed)" % suppressed, flush=True)
     # model/implementation disagreements on cases without a reported violation (known findings do not hide them)
     bad_corr = [i for i in sorted(corrg) if i not in violating]
     ctx.obligation("correspondence " + relation, not corrg,
